@@ -32,6 +32,65 @@ type FuncInfo struct {
 	Pkg  *packages.Package
 	Decl *ast.FuncDecl
 	Obj  *types.Func
+	// goroutine-body units ("<enclosing>$go<N>": the N-th `go func(){...}()` literal of the enclosing function, in
+	// source order): Decl is synthesised from the literal (same Type and Body nodes, so positions, scopes and type
+	// information are those of the real code); Free lists the captured variables, bound like parameters.
+	Name string
+	Free []*types.Var
+}
+
+func (fi *FuncInfo) Full() string {
+	if fi.Name != "" {
+		return fi.Name
+	}
+	return funcFullName(fi.Obj)
+}
+
+// goBodies registers the goroutine bodies of fd as units of their own.
+func (p *Program) goBodies(pk *packages.Package, fd *ast.FuncDecl, full string) {
+	n := 0
+	ast.Inspect(fd.Body, func(nd ast.Node) bool {
+		gs, ok := nd.(*ast.GoStmt)
+		if !ok {
+			return true
+		}
+		lit, ok := gs.Call.Fun.(*ast.FuncLit)
+		if !ok {
+			return true
+		}
+		n++
+		sig, _ := pk.TypesInfo.TypeOf(lit).(*types.Signature)
+		if sig == nil {
+			return true
+		}
+		name := fmt.Sprintf("%s$go%d", full, n)
+		short := name[strings.LastIndex(name, ".")+1:]
+		obj := types.NewFunc(lit.Pos(), pk.Types, short, sig)
+		seen := map[*types.Var]bool{}
+		var free []*types.Var
+		ast.Inspect(lit.Body, func(m ast.Node) bool {
+			id, ok := m.(*ast.Ident)
+			if !ok {
+				return true
+			}
+			o, ok := pk.TypesInfo.Uses[id].(*types.Var)
+			if !ok || o.IsField() || seen[o] {
+				return true
+			}
+			if o.Pkg() != nil && o.Parent() == o.Pkg().Scope() {
+				return true
+			}
+			if o.Pos() >= lit.Pos() && o.Pos() < lit.End() {
+				return true
+			}
+			seen[o] = true
+			free = append(free, o)
+			return true
+		})
+		p.Funcs[name] = &FuncInfo{Pkg: pk, Obj: obj, Name: name, Free: free,
+			Decl: &ast.FuncDecl{Name: ast.NewIdent(short), Type: lit.Type, Body: lit.Body}}
+		return true
+	})
 }
 
 type LoopSpec struct {
@@ -162,6 +221,9 @@ func LoadProgram(dir string, patterns []string) (*Program, error) {
 					continue
 				}
 				p.Funcs[funcFullName(obj)] = &FuncInfo{Pkg: pk, Decl: fd, Obj: obj}
+				if strings.HasPrefix(pk.PkgPath, "github.com/tdewolff/minify/v2") {
+					p.goBodies(pk, fd, funcFullName(obj))
+				}
 			}
 		}
 	})
